@@ -32,6 +32,7 @@ pub fn run(cfg: &Config) -> i32 {
 		add(&mut total, pf::fam_sigma(cfg, flags, "sigma-c-strings", &crate::gen::SIGMA_C, if thorough { 5 } else { 4 }));
 		add(&mut total, pf::fam_surrogates(cfg, flags, if thorough { 5 } else { 4 }));
 		add(&mut total, pf::fam_large(cfg, flags, if thorough { 64 } else { 16 }, if thorough { 100_000 } else { 20_000 }));
+		add(&mut total, pf::fam_block_boundaries(cfg, flags));
 	}
 	let extra = json!({
 		"escape_tables_swept_completely": exhaustive_tables,
